@@ -684,7 +684,8 @@ Inductive ev :=
 | EPause | EResume | EStop (x : state)
 | ERerun (tid : nat) (reset : bool)
 | ESkipTask (tid : nat)
-| EDup (i : item).                   (* redeliver a message that was delivered before *)
+| EDup (i : item)                    (* redeliver a message that was delivered before *)
+| EEvict.                            (* parser.clear_caches(): the engine's in-memory definition caches dropped *)
 
 Definition outcome_eqb (a b : outcome) : bool :=
   match a, b with OOk, OOk | OErr, OErr | OCancel, OCancel => true | _, _ => false end.
@@ -848,6 +849,7 @@ Definition step (sp : spec) (s : st) (e : ev) : st * outc :=
     | IResult aid res => match do_result sp s aid res with (s1, Ok) => (s1, Ok) | (_, o) => (s, o) end
     | _ => (s, NotEnabled)
     end
+  | EEvict => (s, Ok)                (* specs are rebuilt from the stored definition: no state, nothing changes *)
   | EPause =>
     if negb (wf_created s) then (s, NotEnabled) else
     match pause_workflow s with Some s1 => (s1, Ok) | None => (s, Declared) end
